@@ -778,7 +778,28 @@ def namespace_validated_first(repo, rep, rid, select):
         n += 1
         r.sites += 1
         r.functions.add(f.fq)
-        names = [dotted(c.func) for c in calls]
+        def sequence(fn, depth=0):
+            """self.* calls in order; a private helper that itself validates
+            the namespace is replaced by its own sequence"""
+            out = []
+            for st_ in fn.body:
+                for c_ in ast.walk(st_):
+                    if not isinstance(c_, ast.Call):
+                        continue
+                    d_ = dotted(c_.func) or ''
+                    if not d_.startswith('self.'):
+                        continue
+                    h_ = mp.find_method(d_[5:]) if d_.count('.') == 1 and \
+                        d_[5:6] == '_' else None
+                    sub = sequence(h_, depth + 1) \
+                        if h_ is not None and h_ is not fn and depth < 2 \
+                        else []
+                    if 'self.validate_namespace' in sub:
+                        out += sub
+                    else:
+                        out.append(d_)
+            return out
+        names = sequence(f)
         idx = names.index('self.validate_namespace') \
             if 'self.validate_namespace' in names else None
         ok = idx is not None and all(
